@@ -116,9 +116,9 @@ pub fn run(ctx: &Ctx) {
         pass(format!("after-success|{}", if checked > 300 { "many" } else { "few" }), true)
     });
 
-    // every message length 0..=200 for every hash: the genuine message is accepted, the same
+    // every message length 0..=300 for every hash: the genuine message is accepted, the same
     // message with its last byte (or, if empty, its length) changed is rejected
-    ctx.enumerate("message_length_tamper", 6 * 201 * 2, true, |i| ((i / 402) as u8, ((i % 402) / 2) as u16, (i % 2) as u8), |c: &(u8, u16, u8)| {
+    ctx.enumerate("message_length_tamper", 6 * 301 * 2, true, |i| ((i / 602) as u8, ((i % 602) / 2) as u16, (i % 2) as u8), |c: &(u8, u16, u8)| {
         let h = ALL_HASHES[c.0 as usize];
         let m = Model::with_overrides(h, &ov);
         let levels = vec![([8u32, 4][c.1 as usize % 2], 2u32)];
